@@ -18,7 +18,7 @@ import pathlib
 import pickle
 import re
 import sys
-from typing import Any, Callable, Dict, Iterable, List, Optional, Tuple
+from typing import Any, Callable, Dict, Iterable, List, Optional
 
 from vf import env
 
